@@ -363,12 +363,15 @@ func (sc SimpleColumn) WriteTo(store ReadOnlyFactStore, w io.Writer) error {
 // ReadPred reads matching facts for a single predicate with arity > 0.
 // len(filter) must match p.Arity.
 func (SimpleColumn) readPred(scanner *bufio.Scanner, p ast.PredicateSym, numFacts int, filter []ast.BaseTerm, cb func(args []ast.BaseTerm) error) error {
-	args := make([][]ast.BaseTerm, numFacts)
-	numSkip := 0
-	skip := make([]bool, numFacts)
-	for i := 0; i < numFacts; i++ {
-		args[i] = make([]ast.BaseTerm, p.Arity)
+	if numFacts < 0 {
+		return fmt.Errorf("pred %v: negative number of facts %d: %w", p, numFacts, ErrWrongArgument)
 	}
+	// The number of facts comes from the file header and may be wrong or
+	// malicious: rows are allocated as the lines of the first column are
+	// read, not up front.
+	var args [][]ast.BaseTerm
+	numSkip := 0
+	var skip []bool
 	// TODO: It would be smarter to load and traverse those columns that
 	// have a filter present.
 	for j := 0; j < p.Arity; j++ {
@@ -376,11 +379,15 @@ func (SimpleColumn) readPred(scanner *bufio.Scanner, p ast.PredicateSym, numFact
 			if ok := scanner.Scan(); !ok {
 				return fmt.Errorf("scanning pred %v column %d fact %d: %w", p, j, i, ErrCouldNotRead)
 			}
+			if j == 0 {
+				args = append(args, make([]ast.BaseTerm, p.Arity))
+				skip = append(skip, false)
+			}
 			if skip[i] { // Fact does not match anyway.
 				continue
 			}
 			text := scanner.Text()
-			if text[0] == '/' {
+			if len(text) > 0 && text[0] == '/' {
 				var err error
 				text, err = percentUnescape(text)
 				if err != nil {
@@ -409,7 +416,7 @@ func (SimpleColumn) readPred(scanner *bufio.Scanner, p ast.PredicateSym, numFact
 			numSkip++
 		}
 	}
-	for i := 0; i < numFacts; i++ {
+	for i := range args {
 		if skip[i] {
 			continue
 		}
